@@ -314,6 +314,36 @@ theorem C16_cloud_ryw (c : Cloud) (lg : Tab) (hp : c.poisoned = false) (hl : c.l
           · right; simp
         · left; exact hins _ _ rfl rfl rfl
 
+/-- "never lowers a version" for the store's *own view* inside a transaction (what `get`/`get_version`
+    answer): an accepted `put_with_version` never makes the version reported for any key smaller. -/
+def C16_cloud_view_mono : Prop :=
+  ∀ (c c' : Cloud) (k k' : Key) (v v' : Nat) (x x' : Val), c.poisoned = false →
+    (Cloud.get c k).2 = some (some (v, x)) → Cloud.putV c k' v' x' = (c', .ok) →
+    ∃ r, (Cloud.get c' k).2 = some (some r) ∧ v ≤ r.1
+
+/-- a transaction that has written `(k1, 5, aa)` -/
+def viewWit : Cloud := { loc := [], log := some [(0, (0, [7])), (1, (5, [0xaa]))], poisoned := false, sid := [7] }
+
+/-- **refuted** for the code as it is (finding F13): the check is against the local store only, so
+    `putv k1 3 bb` is accepted after `putv k1 5 aa` in the same transaction and `get_version k1` goes
+    from 5 to 3.  (The committed local store is not affected: `C16_mono`.) -/
+theorem C16_cloud_view_mono_false : ¬ C16_cloud_view_mono := by
+  intro h
+  obtain ⟨r, h1, h2⟩ := h viewWit (Cloud.putV viewWit 1 3 [0xbb]).1 1 1 5 3 [0xaa] [0xbb] rfl
+    (by decide) (by decide)
+  have hget : (Cloud.get (Cloud.putV viewWit 1 3 [0xbb]).1 1).2 = some (some (3, [0xbb])) := by decide
+  rw [hget] at h1
+  cases h1
+  exact absurd h2 (by decide)
+
+/-- what does hold (**partial**): a write to *another* key never changes the answer, and `put`/`delete`
+    — the only writes the signer's persister issues — always answer with the successor of the committed
+    version (`C16_cloud_ryw`), so a transaction made of `put`/`delete` never lowers its view. -/
+theorem C16_cloud_view_mono_partial (c : Cloud) (lg : Tab) (hp : c.poisoned = false) (hl : c.log = some lg)
+    (k k' : Key) (v : Nat) (x : Val) (hk : k' ≠ k) :
+    (Cloud.get (Cloud.putV c k' v x).1 k).2 = (Cloud.get c k).2 ∨ (Cloud.putV c k' v x).2 ≠ .ok :=
+  (C16_cloud_ryw c lg hp hl k v x).2.2 k' hk
+
 /-- every request except `commit` leaves the local store alone -/
 theorem C16_cloud_local_only_commit (c : Cloud) (op : Op) (h : op ≠ .commit) :
     (Cloud.step c op).1.loc = c.loc := Cloud.step_loc c op h
